@@ -32,6 +32,8 @@
 #include <map>
 #include <set>
 #include <sstream>
+#include <type_traits>
+#include <unistd.h>
 #include <openssl/sha.h>
 
 #include "common/session.h"
@@ -56,6 +58,15 @@
 #include "torrent/peer/peer_info.h"
 
 using namespace ltv;
+
+// Private containers are walked generically (element may be a raw pointer, a smart pointer or an object): a container /
+// element type refactor in the library must not break this observer.
+template <class E> static auto* elem_ptr(E& e) {
+  if constexpr (std::is_pointer_v<std::remove_reference_t<E>>) return e;
+  else if constexpr (requires { e.get(); }) return e.get();
+  else return &e;
+}
+#define EACH_PTR(var, cont) for (auto&& var##_e : (cont)) if (auto* var = elem_ptr(var##_e); true)
 
 static uint32_t g_case_no = 0;
 
@@ -105,6 +116,23 @@ struct Ctx {
 static Ctx* g_ctx = nullptr;
 static torrent::download_data* hq_id(Torrent* T) { return const_cast<torrent::download_data*>(T->dl.data()); }
 
+// ---- huge sparse layouts (big=<i,j,..>): a single file > 4 GiB of which only the listed pieces carry data / are offered by
+// the peers; Session::add_torrent cannot be used (it materialises the whole content), the torrent is built here.
+struct BigSpec { bool on = false; uint64_t total = 0; uint32_t plen = 0, seed = 0; std::set<uint32_t> mat; };
+static BigSpec g_big;
+static uint32_t psize(Torrent* T, uint32_t i) {
+  if (!g_big.on) return T->piece_size(i);
+  uint64_t off = (uint64_t)i * g_big.plen;
+  return off >= g_big.total ? 0 : (uint32_t)std::min<uint64_t>(g_big.plen, g_big.total - off);
+}
+static std::string prange(Torrent* T, uint32_t i, uint32_t begin, uint32_t len) {
+  if (!g_big.on) return T->range(i, begin, len);
+  std::string d(len, '\0');
+  if (g_big.mat.count(i))
+    for (uint32_t k = 0; k < len; k++) d[k] = (char)content_byte(g_big.seed, (uint64_t)i * g_big.plen + begin + k);
+  return d;
+}
+
 // ---- disk ------------------------------------------------------------------------------------
 static std::string disk_content(Torrent* T) {
   std::string out;
@@ -119,7 +147,7 @@ static std::string disk_content(Torrent* T) {
 }
 static std::string disk_piece(Torrent* T, uint32_t i) {
   // read only the files overlapping the piece
-  uint64_t lo = (uint64_t)i * T->spec.piece_length, hi = lo + T->piece_size(i);
+  uint64_t lo = (uint64_t)i * T->spec.piece_length, hi = lo + psize(T, i);
   std::string out;
   uint64_t g = 0;
   for (auto& f : T->spec.files) {
@@ -147,7 +175,7 @@ static void oracle(Ctx& c, const char* when) {
   uint64_t bytes = 0;
   for (uint32_t i = 0; i < bits.size(); i++) {
     if (bits[i] != '1') continue;
-    bytes += T->piece_size(i);
+    bytes += psize(T, i);
     if (sha1_raw(disk_piece(T, i)) != T->piece_hashes[i] && c.viol.size() < 4)
       c.viol.push_back(std::string("completed-not-verified:piece=") + std::to_string(i) + ":" + when);
   }
@@ -159,7 +187,7 @@ static void oracle(Ctx& c, const char* when) {
         c.viol.push_back("have-not-verified:piece=" + std::to_string(h));
   if (c.done_signalled || T->dl.file_list()->is_done()) {
     if (bits.find('0') != std::string::npos && c.viol.size() < 4) c.viol.push_back("done-with-missing-pieces");
-    if (disk_content(T) != T->content && c.viol.size() < 4) c.viol.push_back("done-files-differ-from-content");
+    if (!g_big.on && disk_content(T) != T->content && c.viol.size() < 4) c.viol.push_back("done-files-differ-from-content");
     for (auto& f : T->spec.files) {
       std::error_code ec;
       auto sz = std::filesystem::file_size(T->root + "/" + f.path, ec);
@@ -197,7 +225,7 @@ static std::string snapshot(Ctx& c) {
   o << ";L=";
   auto* tl = T->main()->delegator()->transfer_list();
   std::map<uint32_t, std::string> lists;
-  for (torrent::BlockList* bl : *tl) {
+  EACH_PTR(bl, *tl) {
     std::ostringstream b;
     b << bl->index() << "/" << bl->attempt() << "/" << bl->finished() << "[";
     bool fb = true;
@@ -207,12 +235,12 @@ static std::string snapshot(Ctx& c) {
       auto* ld = blk.leader();
       b << (ld ? peer_name(c, const_cast<torrent::BlockTransfer*>(ld)->peer_info()) : std::string("-")) << "@" << (ld ? ld->position() : 0) << "|q=";
       std::vector<std::string> q;
-      for (auto* t : *blk.queued()) q.push_back(peer_name(c, t->peer_info()));
+      EACH_PTR(t, *blk.queued()) q.push_back(peer_name(c, t->peer_info()));
       std::sort(q.begin(), q.end());
       for (size_t i = 0; i < q.size(); i++) b << (i ? "," : "") << q[i];
       b << "|t=";
       bool ft = true;
-      for (auto* t : *blk.transfers()) {
+      EACH_PTR(t, *blk.transfers()) {
         b << (ft ? "" : ",") << peer_name(c, t->peer_info()) << "." << tstate(t) << "." << t->position();
         ft = false;
       }
@@ -311,7 +339,8 @@ static void observe(Ctx& c, const char* when) {
     }
   // probes: listed pieces whose disk digest changed
   auto* tl = T->main()->delegator()->transfer_list();
-  for (torrent::BlockList* bl : *tl) {
+  EACH_PTR(bl, *tl) {
+    if (g_big.on) break;   // 1 MiB pieces: the verdict events tie the store to the disk, no per-block probes
     std::string d = hex(sha1_raw(disk_piece(T, bl->index())));
     if (c.last_probe[bl->index()] != d) {
       c.last_probe[bl->index()] = d;
@@ -372,7 +401,7 @@ static bool usable(Ctx& c, PeerS* p) {
 static std::string answer_data(Ctx& c, PeerS* p, const Req& r) {
   Torrent* T = c.T;
   std::string d;
-  if (r.idx < T->piece_count() && (uint64_t)r.off + r.len <= T->piece_size(r.idx)) d = T->range(r.idx, r.off, r.len);
+  if (r.idx < T->piece_count() && (uint64_t)r.off + r.len <= psize(T, r.idx)) d = prange(T, r.idx, r.off, r.len);
   else d.assign(r.len, '\0');
   bool corrupt = false;
   if (p->variant != 0 && r.len > 0) {
@@ -394,7 +423,7 @@ static std::string answer_data(Ctx& c, PeerS* p, const Req& r) {
       uint64_t a = (uint64_t)p->x_pos + k;
       if (a >= r.off && a < (uint64_t)r.off + r.len) d[a - r.off] = p->x_bytes[k];
     }
-  if (r.idx < T->piece_count() && (uint64_t)r.off + r.len <= T->piece_size(r.idx) && d != T->range(r.idx, r.off, r.len)) c.tainted.insert(r.idx);
+  if (r.idx < T->piece_count() && (uint64_t)r.off + r.len <= psize(T, r.idx) && d != prange(T, r.idx, r.off, r.len)) c.tainted.insert(r.idx);
   return d;
 }
 
@@ -416,7 +445,7 @@ static bool stall_is_stale(Ctx& c) {
     if (bits[i] != '1' && tl->find(i) == tl->end()) return false;
   if (torrent::ThreadMain::thread_main()->hash_queue()->has(hq_id(T))) return false;
   bool any_open = false, honest_refused = false;
-  for (torrent::BlockList* bl : *tl)
+  EACH_PTR(bl, *tl)
     for (auto& blk : *bl) {
       if (blk.is_finished()) continue;
       any_open = true;
@@ -424,8 +453,8 @@ static bool stall_is_stale(Ctx& c) {
         if (!usable(c, p.get()) || p->choking) continue;   // a peer that chokes us cannot be asked: not a candidate
         bool honest = p->variant == 0;
         bool asked = false, stale = false;
-        for (auto* t : *blk.queued()) if (t->peer_info() == p->info) asked = true;
-        for (auto* t : *blk.transfers()) {
+        EACH_PTR(t, *blk.queued()) if (t->peer_info() == p->info) asked = true;
+        EACH_PTR(t, *blk.transfers()) {
           if (t->peer_info() != p->info) continue;
           if (t->is_finished() && !t->is_valid()) stale = true; else asked = true;
         }
@@ -443,10 +472,10 @@ static bool stall_is_stale(Ctx& c) {
 static void settle_verdicts_involving(Ctx& c, PeerS* p) {
   auto* tl = c.T->main()->delegator()->transfer_list();
   bool involved = false;
-  for (torrent::BlockList* bl : *tl) {
+  EACH_PTR(bl, *tl) {
     if (!torrent::ThreadMain::thread_main()->hash_queue()->has(hq_id(c.T), bl->index())) continue;
     for (auto& blk : *bl)
-      for (auto* t : *blk.transfers())
+      EACH_PTR(t, *blk.transfers())
         if (t->peer_info() == p->info) involved = true;
   }
   if (involved) wait_hash(c);
@@ -536,6 +565,13 @@ static std::string run_case(Session& S, const std::string& line) {
   if (total > 3000) spec.files = {{"a.bin", total - total / 3}, {"d/b.bin", total / 3}};
   else spec.files = {{"a.bin", total}};
   uint32_t np = (uint32_t)((total + plen - 1) / plen);
+  g_big = BigSpec();
+  if (kv.count("big")) {
+    g_big.on = true; g_big.total = total; g_big.plen = plen; g_big.seed = seed;
+    std::stringstream bs(kv["big"]); std::string t;
+    while (std::getline(bs, t, ',')) if (!t.empty()) g_big.mat.insert((uint32_t)std::stoul(t));
+    have.assign(np, '0');
+  }
   if (have.size() != np) return "BADCASE:have";
   uint32_t pre = kv.count("pre") ? std::stoul(kv["pre"]) : 0;
   if (pre > 0) {
@@ -553,7 +589,37 @@ static std::string run_case(Session& S, const std::string& line) {
   if (have.find('1') == std::string::npos) spec.write_files = false;
   else for (uint32_t i = 0; i < np; i++) if (have[i] != '1') spec.corrupt_pieces.push_back(i);
   c.blocks_per_piece = (plen + torrent::Delegator::block_size - 1) / torrent::Delegator::block_size;
-  Torrent* T = S.add_torrent(spec);
+  static std::unique_ptr<Torrent> big_hold;
+  Torrent* T = nullptr;
+  if (g_big.on) {
+    // metainfo by hand: real digests for the materialised pieces, a dummy digest (never matches) for all others
+    big_hold = std::make_unique<Torrent>();
+    T = big_hold.get();
+    spec.files = {{"big.bin", total}};
+    spec.single_file = true;
+    spec.write_files = false;
+    T->spec = spec;
+    std::string pieces;
+    for (uint32_t i = 0; i < np; i++) {
+      std::string hsh = g_big.mat.count(i) ? sha1_raw(prange(T, i, 0, psize(T, i))) : std::string(20, char(0x11));
+      T->piece_hashes.push_back(hsh);
+      pieces += hsh;
+    }
+    auto bstr = [](const std::string& x) { return std::to_string(x.size()) + ":" + x; };
+    T->info_bytes = "d" + bstr("length") + "i" + std::to_string(total) + "e" + bstr("name") + bstr("big.bin") +
+                    bstr("piece length") + "i" + std::to_string(plen) + "e" + bstr("pieces") + bstr(pieces) + bstr("private") + "i1ee";
+    T->info_hash = sha1_raw(T->info_bytes);
+    T->root = S.scratch() + "/big" + std::to_string(g_case_no);
+    std::filesystem::create_directories(T->root);
+    T->dl = S.add_raw("d4:info" + T->info_bytes + "e");
+    T->dl.file_list()->set_root_dir(T->root);
+    T->dl.open(0);
+    T->dl.hash_check(false);
+    torrent::Download d = T->dl;
+    if (!S.settle([d]() { return d.is_hash_checked(); }, 120000)) { S.remove(T); return "ERR:big-hashcheck"; }
+  } else {
+    T = S.add_torrent(spec);
+  }
   c.T = T;
   if (T->completed_bits() != have) { S.remove(T); return "ERR:hashcheck " + T->completed_bits(); }
   T->dl.data()->slot_chunk_done() = [](torrent::ChunkListNode* n) { on_chunk_done(n->index()); };
@@ -587,6 +653,8 @@ static std::string run_case(Session& S, const std::string& line) {
     }
   }
   std::string err;
+  std::string offered(np, g_big.on ? '0' : '1');
+  for (uint32_t i : g_big.mat) if (i < np) offered[i] = '1';
   for (auto& p : c.peers) {
     std::string ip = "127.0." + std::to_string(1 + (g_case_no % 200)) + "." + std::to_string(2 + p->id);
     // Session::find_connection identifies a connection by its remote PORT only; peers bound to different loopback
@@ -601,7 +669,7 @@ static std::string run_case(Session& S, const std::string& line) {
     if (!okc) { err = "ERR:connect"; break; }
     char idbuf[21];
     snprintf(idbuf, sizeof idbuf, "-LV0001-%06u%06u", g_case_no % 1000000, (unsigned)p->id);
-    p->w.send_bytes(WirePeer::handshake(T->info_hash, std::string(idbuf, 20)) + WirePeer::bitfield(std::string(np, '1')));
+    p->w.send_bytes(WirePeer::handshake(T->info_hash, std::string(idbuf, 20)) + WirePeer::bitfield(offered));
     pump_all(c);
     HandshakeIn hs;
     if (!p->w.take_handshake(hs) || hs.info_hash != T->info_hash) { err = "ERR:handshake"; break; }
@@ -696,13 +764,15 @@ static std::string run_case(Session& S, const std::string& line) {
               send_data(c, pp.get(), d);
               any = true;
             }
-            while (usable(c, pp.get()) && !pp->pending.empty()) { answer(c, pp.get(), 0); any = true; }
+            // bounded: a library that re-requests a failed block from the same corrupting peer at once would keep this going
+            for (int k = 0; k < 64 && usable(c, pp.get()) && !pp->pending.empty(); k++) { answer(c, pp.get(), 0); any = true; }
           }
           wait_hash(c);
           if (T->dl.file_list()->is_done()) break;
           if (!any) {
             if (++dry > 3) {
               for (auto& pp : c.peers) if (pp->variant == 0 && !pp->choking && usable(c, pp.get())) c.stuck = true;
+              if (g_big.on) c.stuck = false;   // the peers of a huge sparse layout offer only the materialised pieces
               if (c.stuck) c.stale = stall_is_stale(c);
               break;
             }
@@ -742,14 +812,26 @@ static std::string run_case(Session& S, const std::string& line) {
   return out;
 }
 
+// per-case watchdog (ROBUSTNESS.md rule 5): a case that does not finish is ONE result line "HANG", the process ends and
+// ltv.run_sharded continues with the next case
+static void on_alarm(int) {
+  static const char msg[] = "HANG case did not finish within the per-case time limit\n";
+  ssize_t r = write(1, msg, sizeof msg - 1); (void)r;
+  _exit(5);
+}
+
 int main() {
   std_setup();
+  signal(SIGALRM, on_alarm);
+  int case_limit = getenv("LTV_CASE_TIMEOUT") ? atoi(getenv("LTV_CASE_TIMEOUT")) : 30;
   std::unique_ptr<Session> S;
   std::string line;
   while (std::getline(std::cin, line)) {
     try {
+      alarm(line.find(" big=") != std::string::npos ? 4 * case_limit : case_limit);
       if (!S) S = std::make_unique<Session>();
       std::cout << run_case(*S, line) << "\n";
+      alarm(0);
     } catch (torrent::internal_error& e) {
       std::string ev;
       if (g_ctx) for (auto& x : g_ctx->ev) { if (x[0] != 'B' && x[0] != 'S' && x[0] != 'X') ev += x + " "; }
